@@ -22,6 +22,7 @@ import Bermuda.Lemmas.FrameArrayFull
 import Bermuda.Lemmas.FrameRows
 import Bermuda.Lemmas.FrameMatrixTotal
 import Bermuda.Lemmas.FrameInfer
+import Bermuda.Lemmas.FrameFieldPerm
 namespace Bermuda.Properties.C14
 open Bermuda Bermuda.Frame Bermuda.Spec.C14
 
@@ -1150,6 +1151,26 @@ theorem inferred_example : ∀ k ∈ ["coverage"], k ∈ allMetadataNames ex := 
   subst hk
   refine mem_allMetadataNames.mpr ⟨exCell ⟨2020, 12, 31⟩ (.arr false [2] [1, 2]) "DE", List.mem_cons_self, ?_⟩
   decide +kernel
+
+
+/-! ### The wide reader and the order of `field_cols`; `field_cols=None` -/
+
+/-- **fromWide_toWide_fieldsPerm**: the wide reader does not depend on the ORDER of `field_cols` — handed any
+permutation of the triangle's fields it returns the triangle (only the order of the values inside a cell
+changes, which the property does not constrain: `canonCell` compares them sorted by name). -/
+theorem fromWide_toWide_fieldsPerm {t : List Cell} {D L F' : List String} (h : WFwide t D L)
+    (hp : F'.Perm (allFields t)) :
+    okAnd (fun out => wideSpec t out && slicesSpec false t out)
+      ((toWideRows t).bind fun tb => fromWideRows tb F' D L) = true :=
+  Frame.fromWide_toWide_fieldsPerm h hp
+
+/-- **fromWide_toWide_fieldsInferred**: `from_wide_csv(file, detail_cols=D, loss_detail_cols=L)` — `field_cols`
+left out, so the reader takes `list(set(columns) - CORE_SET - set(detail_cols))`, which for the written table
+is a permutation of the triangle's fields (`inferFields_written`) — gives the triangle back. -/
+theorem fromWide_toWide_fieldsInferred {t : List Cell} {D L : List String} (h : WFwide t D L) :
+    okAnd (fun out => wideSpec t out && slicesSpec false t out)
+      ((toWideRows t).bind fun tb => fromWideRowsInfer tb none (some D) L) = true :=
+  Frame.fromWide_toWide_fieldsInferred h
 
 
 end Bermuda.Properties.C14
